@@ -77,6 +77,7 @@ func c15Gen(tier string, emit func(c15Case)) {
 			emit(c15Case{Kind: "build", Template: t, Style: st, Reg: "late-after-miss"})
 			// a caching router with room for two entries only: all URLs are built and requested in two passes
 			emit(c15Case{Kind: "build", Template: t, Style: st, Reg: "tiny-cache-two-passes"})
+			emit(c15Case{Kind: "build", Template: t, Style: st, Reg: "head-twin-cached"})
 			// a later route that has one of the values as literal text where the template has its first variable
 			if strings.Count(t, "{") >= 2 {
 				emit(c15Case{Kind: "build", Template: t, Style: st, Reg: "literal-decoy-after"})
@@ -213,11 +214,17 @@ func c15Run(c c15Case, st *fw.Stats) []fw.Viol {
 	if c.Reg == "tiny-cache-two-passes" {
 		r = rux.New(rux.CachingWithNum(2))
 	}
+	if c.Reg == "head-twin-cached" {
+		r = rux.New(rux.CachingWithNum(8))
+	}
+	var seenViaParam map[string]string
 	th := func(ctx *rux.Context) {
 		seenIdx = 0
 		seenParams = map[string]string{}
+		seenViaParam = map[string]string{}
 		for k, v := range ctx.Params {
 			seenParams[k] = v
+			seenViaParam[k] = ctx.Param(k) // what a handler gets from the accessor
 		}
 	}
 	prefix := ""
@@ -241,6 +248,10 @@ func c15Run(c c15Case, st *fw.Stats) []fw.Viol {
 			r.POST(twin, func(ctx *rux.Context) { seenIdx = 4 })
 		}
 		r.AddNamed("target", c.Template, th, "GET")
+	case "head-twin-cached":
+		// a second named route with the same template serves HEAD; every built URL is asked with HEAD first
+		r.AddNamed("target", c.Template, th, "GET")
+		r.AddNamed("target-for-head", c.Template, func(ctx *rux.Context) { seenIdx = 6 }, "HEAD")
 	case "late-after-miss":
 		// registered below, after the misses
 	default:
@@ -379,6 +390,16 @@ func c15Run(c c15Case, st *fw.Stats) []fw.Viol {
 				add("build:panic", fmt.Sprintf("%s: BuildURL panicked: %v", desc, pv))
 				continue
 			}
+			if c.Reg == "head-twin-cached" {
+				_ = try(func() { r.Match("HEAD", u.Path) })
+				if hreq, err := http.NewRequest("HEAD", "http://h"+u.String(), nil); err == nil {
+					seenIdx = -1
+					_ = try(func() { r.ServeHTTP(httptest.NewRecorder(), hreq) })
+					if seenIdx != 6 && strings.Contains(c.Template, "{") {
+						add("build:request", fmt.Sprintf("%s: a HEAD request for %q reached handler %d, expected the HEAD route of the same template", desc, u.String(), seenIdx))
+					}
+				}
+			}
 			// 1. the path is dispatched to that same route with exactly the values
 			rt, ps, _ := r.Match("GET", u.Path)
 			// (a caching router hands out its cached copy of the route: identity is judged by name and path)
@@ -404,6 +425,10 @@ func c15Run(c c15Case, st *fw.Stats) []fw.Viol {
 			w := httptest.NewRecorder()
 			if pv := try(func() { r.ServeHTTP(w, req) }); pv != nil {
 				add("build:serve-panic", fmt.Sprintf("%s: ServeHTTP(%q) panicked: %v", desc, u.String(), pv))
+				continue
+			}
+			if seenIdx == 0 && canonParams(seenViaParam) != canonParams(wantParams) {
+				add("build:request", fmt.Sprintf("%s: requesting %q: the handler reads {%s} through Context.Param, the values given were {%s}", desc, u.String(), canonParams(seenViaParam), canonParams(wantParams)))
 				continue
 			}
 			if seenIdx != 0 || canonParams(seenParams) != canonParams(wantParams) {
@@ -435,7 +460,7 @@ func c15Run(c c15Case, st *fw.Stats) []fw.Viol {
 var c15Spec = fw.Spec[c15Case]{
 	ID:    "C15",
 	Level: "model_checking",
-	Rule: "complete product: 24 named templates (static - also with '#', '?', '%25', ';', '&' and blanks in the literal text -, leading variable next to dynamic decoys whose literal first segment is one of the values, default / custom / global variable regexes, 1-3 variables, literal prefix and suffix around a variable, '.' in the literal text - also more dots than the shortest values have bytes) x ALL value tuples over 19 values (spaces, non-ASCII, %, ?, #, ;, encoded slash, dots, slash where the regex admits it) that satisfy the variables' regexes x 4 argument styles (M map, key/value pairs, BuildRequestURL builder, one builder object reused across routes) x 7 registrations (followed by a later route that spells the template's first variable as a literal equal to one of the values; on a caching router with two cache slots, every URL built and requested in two passes; on a caching router that answered 'no route' for every URL before the route existed; top-level AddNamed; NewNamedRoute + ToURL() + AddRoute inside a group; named after registration with NamedTo; after a POST route with the same skeleton and variable names but other variable regexes) x 4 sets of extra query arguments; " +
+	Rule: "complete product: 24 named templates (static - also with '#', '?', '%25', ';', '&' and blanks in the literal text -, leading variable next to dynamic decoys whose literal first segment is one of the values, default / custom / global variable regexes, 1-3 variables, literal prefix and suffix around a variable, '.' in the literal text - also more dots than the shortest values have bytes) x ALL value tuples over 19 values (spaces, non-ASCII, %, ?, #, ;, encoded slash, dots, slash where the regex admits it) that satisfy the variables' regexes x 4 argument styles (M map, key/value pairs, BuildRequestURL builder, one builder object reused across routes) x 8 registrations (on a caching router next to a second named route of the same template that serves HEAD, every URL asked with HEAD first; followed by a later route that spells the template's first variable as a literal equal to one of the values; on a caching router with two cache slots, every URL built and requested in two passes; on a caching router that answered 'no route' for every URL before the route existed; top-level AddNamed; NewNamedRoute + ToURL() + AddRoute inside a group; named after registration with NamedTo; after a POST route with the same skeleton and variable names but other variable regexes) x 4 sets of extra query arguments; " +
 		"each built URL is matched (Match on u.Path) and requested (ServeHTTP on a request parsed from u.String()); naming: all sequences of <=3 (thorough 4) naming operations over 2 names x {AddNamed, NewNamedRoute+AddRoute, route.NamedTo on a new route, NamedTo renaming the first / the previous route}; non-trivial = a template with variables / a sequence of >=2 naming operations",
 	Assume: []string{"values containing '{' or '}' are excluded: Build substitutes in Go map order, which the harness cannot own", "routes without optional parts, as the statement says", "value tuples that spell a path which is not in normal form (white space or '/' at the very end) are skipped: path normalisation (C11) ignores those characters by design"},
 	Bounds: func(tier string) map[string]any {
